@@ -2,6 +2,8 @@ import GeosModel.Proofs.Valid.NodeTopo
 import GeosModel.Proofs.Valid.RefInv
 import GeosModel.Proofs.Valid.CrossSymm
 import GeosModel.Proofs.Valid.RingNested
+import GeosModel.Proofs.Valid.WedgeDet
+import GeosModel.Proofs.Valid.PairRule
 /-!
 # C05 — isValid and isSimple decide the OGC rules exactly
 
@@ -15,6 +17,24 @@ the positive x-axis, its zero is "same ray"; `isAngleGreater` is `compareAngle =
 `isCrossing` is true exactly when `b0` and `b1` lie strictly in different open wedges of the corner `(a0, a1)`
 (`crossAt`, stated with the cyclic order `cyc` of the specification order); `isInteriorSegment` is true exactly when
 `b` points into the sweep from `a0` (exclusive) counter-clockwise to `a1` (inclusive).
+
+**CORE, second part (FULL for the statements made).**  `Model/Valid/RingNested.lean` is
+`PolygonTopologyAnalyzer::isRingNested` (the one decision behind hole-in-shell, nested holes, nested shells and
+shell-in-hole) with `findNonEqualVertex`, `isIncidentSegmentInRing`, `intersectingSegIndex`, `findRingVertexPrev/Next`,
+`Orientation::isCCWArea` / `Area::ofRingSigned`, branch by branch, tied to the real function by the stream `ring-nested`.
+Theorems: the counter-clockwise sweep `cyc` of the specification is a condition on orientation determinants alone
+(`cyc_iff_det`), hence `isInteriorSegment_iff_det` ("the segment lies inside the corner", no reference to the axes);
+`isCrossing` is invariant under all eight lattice symmetries and `isInteriorSegment` under the four rotations; exchanging
+the arms of a corner negates `isInteriorSegment`; `isCrossing` = "`isInteriorSegment` differs for the two edges"; only the
+rays of the points matter (repeated-point skipping is harmless); translation invariance; `isCCWArea` is the sign of the
+shoelace specification `Kernel.area2` on closed rings and flips under reversal; off the target ring `isRingNested` is the
+even–odd point-in-ring specification of the start vertex, on it the node topology of the first test segment.
+Not proved: that `isRingNested` equals ring containment for non-crossing rings (a Jordan-curve statement) — that is
+checked per case against the exact reference `ringInRing` by the stream `ring-nested`.
+
+**CORE, third part.**  `Model/Valid/PairRule.lean` is `PolygonIntersectionAnalyzer::findInvalidIntersection` (the decision
+for every pair of ring segments the noder presents), tied to the real `processIntersections` by the stream `pair-rule`;
+`findInvalidIntersection_eq_pairRule`: it returns exactly the code of the reference evaluator's `pairRule`.
 
 **SPEC (PARTIAL).**  `Model/Valid/Ref.lean` evaluates the OGC/JTS rules literally with exact predicates; GEOS is tied
 to it by the correspondence stream `valid-grid`.  Proved here about the reference: invariance of the intersection
@@ -158,6 +178,44 @@ theorem isCrossing_rays (n a0 a1 b0 b1 a0' a1' b0' b1' : Pt) (h0 : a0 ≠ n) (h1
     isCrossing n a0' a1' b0' b1' = isCrossing n a0 a1 b0 b1 :=
   Valid.isCrossing_rays n a0 a1 b0 b1 a0' a1' b0' b1' h0 h1 hb0 hb1 h0' h1' hb0' hb1' e0 e1 f0 f1
 
+/-- **the counter-clockwise sweep in determinants only**: the specification relation `cyc` (defined through the half-plane
+order, which singles out the positive x-axis) is the rotation-invariant condition `inSweep`: for `det n u v > 0` (less than a
+half turn) `det n u d > 0 ∧ det n d v > 0`; for `det n u v < 0` (more than a half turn) `det n u d > 0 ∨ det n d v > 0`; for
+opposite `u`, `v` (a half turn) `det n u d > 0`; empty when `u` and `v` are one ray -/
+theorem cyc_iff_det (n u d v : Pt) (hu : u ≠ n) (hd : d ≠ n) (hv : v ≠ n) :
+    cyc n u d v = true ↔
+      (if det n u v > 0 then det n u d > 0 ∧ det n d v > 0
+       else if det n u v < 0 then det n u d > 0 ∨ det n d v > 0
+       else dot n u v < 0 ∧ det n u d > 0) := by
+  rw [Valid.cyc_eq_inSweep n u d v hu hd hv]
+  unfold inSweep
+  split_ifs <;> simp
+
+/-- **`isInteriorSegment` decides "the segment lies inside the corner" exactly**, with the corner's inside stated in
+orientation determinants only (no reference to the coordinate axes): the C++ function is true exactly when `n → b` lies
+strictly inside the counter-clockwise sweep from `a0` to `a1` (`inSweep`, see `cyc_iff_det`) or along the ray of `a1`
+while `a0`, `a1` are not one ray -/
+theorem isInteriorSegment_iff_det (n a0 a1 b : Pt) (h0 : a0 ≠ n) (h1 : a1 ≠ n) (hb : b ≠ n) :
+    isInteriorSegment n a0 a1 b = true ↔
+      (inSweep n a0 b a1 = true ∨ ((det n b a1 = 0 ∧ dot n b a1 > 0) ∧ ¬ (det n a0 a1 = 0 ∧ dot n a0 a1 > 0))) := by
+  rw [Valid.isInteriorSegment_eq_det n a0 a1 b h0 h1 hb]
+  simp only [Bool.or_eq_true, Bool.and_eq_true, Bool.not_eq_true', Valid.sameDir_iff]
+  have := Valid.sameDir_iff n a0 a1
+  cases h : sameDir n a0 a1 <;> simp_all
+
+/-- **`isCrossing` is invariant under all eight lattice symmetries** (the four rotations and four reflections of the
+grid; `compareAngle`, which it is built from, is not): the verdict at a node does not depend on how the axes are laid -/
+theorem isCrossing_lattice_invariant (k : Nat) (n a0 a1 b0 b1 : Pt) (h0 : a0 ≠ n) (h1 : a1 ≠ n) (hb0 : b0 ≠ n) (hb1 : b1 ≠ n) :
+    isCrossing (latticeSym k n) (latticeSym k a0) (latticeSym k a1) (latticeSym k b0) (latticeSym k b1) =
+      isCrossing n a0 a1 b0 b1 :=
+  Valid.isCrossing_latticeSym k n a0 a1 b0 b1 h0 h1 hb0 hb1
+
+/-- **`isInteriorSegment` is invariant under the four lattice rotations** (a reflection exchanges the two sides of the
+corner: see `isInteriorSegment_swap_arms`) -/
+theorem isInteriorSegment_rotation_invariant (k : Nat) (hk : k % 8 < 4) (n a0 a1 b : Pt) (h0 : a0 ≠ n) (h1 : a1 ≠ n) (hb : b ≠ n) :
+    isInteriorSegment (latticeSym k n) (latticeSym k a0) (latticeSym k a1) (latticeSym k b) = isInteriorSegment n a0 a1 b :=
+  Valid.isInteriorSegment_rotate k (by unfold Valid.isReflection; simp; omega) n a0 a1 b h0 h1 hb
+
 /-- the C++ node functions are translation invariant (all points, no side conditions) -/
 theorem nodeTopology_translate (t n a0 a1 b0 b1 : Pt) :
     compareAngle (t.shift n) (t.shift a0) (t.shift a1) = compareAngle n a0 a1 ∧
@@ -203,6 +261,36 @@ example : isRingNested [⟨10, 22⟩, ⟨30, 22⟩, ⟨30, 28⟩, ⟨10, 28⟩, 
 example : isRingNested [⟨0, 10⟩, ⟨3, 18⟩, ⟨-3, 18⟩, ⟨0, 10⟩] archA = some true := by decide      -- inside the first tooth, starting at its tip
 example : isCCWArea archA = true ∧ isCCWArea archA.reverse = false := by decide
 example : isInteriorSegment ⟨0, 0⟩ ⟨1, 0⟩ ⟨0, 1⟩ ⟨1, 1⟩ = true ∧ isInteriorSegment ⟨0, 0⟩ ⟨0, 1⟩ ⟨1, 0⟩ ⟨1, 1⟩ = false := by decide
+example : inSweep ⟨0, 0⟩ ⟨1, 0⟩ ⟨-1, -1⟩ ⟨0, -1⟩ = true ∧ inSweep ⟨0, 0⟩ ⟨0, -1⟩ ⟨-1, -1⟩ ⟨1, 0⟩ = false ∧
+    inSweep ⟨0, 0⟩ ⟨1, 0⟩ ⟨0, 1⟩ ⟨-2, 0⟩ = true ∧ inSweep ⟨0, 0⟩ ⟨1, 0⟩ ⟨0, 1⟩ ⟨2, 0⟩ = false := by decide
+example : latticeSym 1 ⟨1, 0⟩ = ⟨0, 1⟩ ∧ latticeSym 4 ⟨1, 2⟩ = ⟨-1, 2⟩ ∧
+    isCrossing (latticeSym 5 ⟨0, 0⟩) (latticeSym 5 ⟨1, 0⟩) (latticeSym 5 ⟨-1, 0⟩) (latticeSym 5 ⟨0, 1⟩) (latticeSym 5 ⟨0, -1⟩) = true := by decide
+
+/-! ## CORE, third part: the per-pair decision `PolygonIntersectionAnalyzer::findInvalidIntersection`
+
+`Model/Valid/PairRule.lean` is `findInvalidIntersection` with `isAdjacentInRing` / `prevCoordinateInRing`, branch by branch
+(`LineIntersector` represented by the exact classification `Kernel.segRel`); tied to the real `processIntersections` by the
+stream `pair-rule`. -/
+
+/-- **the per-pair decision of `IsValidOp` IS the reference's intersection rule**: for every pair of segments of rings
+without repeated points and both settings of the self-touching-ring flag, the model of the C++ decision (adjacency by index
+arithmetic, crossing at a node by the quadrant code `isCrossing`, the end-vertex short cut) returns exactly the code
+(none / 5 / 6) of the reference evaluator's `pairRule` (which states the node rule with the wedge specification `crossAt`) -/
+theorem findInvalidIntersection_eq_pairRule (flag : Bool) (s t : RSeg)
+    (hs1 : s.prev ≠ s.p) (hs2 : s.p ≠ s.q) (ht1 : t.prev ≠ t.p) (ht2 : t.p ≠ t.q) :
+    findInvalidIntersection flag s t = (pairRule flag s t).map (·.1) :=
+  Valid.findInvalidIntersection_eq_pairRule flag s t hs1 hs2 ht1 ht2
+
+/-- the adjacency test of the C++ (`delta <= 1 || delta >= size - 2`) is cyclic adjacency of segment indices -/
+theorem isAdjacentInRing_eq_cyclic (m i0 i1 : Nat) : isAdjacentInRing m i0 i1 = adjacentIdx m i0 i1 :=
+  Valid.isAdjacentInRing_eq m i0 i1
+
+/-! non-vacuity: a proper crossing, a permitted touch of two rings at a vertex, a crossing at a vertex, a ring touching itself -/
+example : findInvalidIntersection false ⟨0, 0, 0, 4, ⟨0, 10⟩, ⟨0, 0⟩, ⟨10, 10⟩⟩ ⟨1, 1, 2, 4, ⟨10, 10⟩, ⟨10, 0⟩, ⟨0, 10⟩⟩ = some 5 := by decide
+example : findInvalidIntersection false ⟨0, 0, 0, 4, ⟨0, 4⟩, ⟨0, 0⟩, ⟨4, 0⟩⟩ ⟨1, 1, 0, 3, ⟨3, -3⟩, ⟨2, 0⟩, ⟨1, -3⟩⟩ = none := by decide
+example : findInvalidIntersection false ⟨0, 0, 0, 4, ⟨0, 4⟩, ⟨0, 0⟩, ⟨4, 0⟩⟩ ⟨1, 1, 0, 3, ⟨3, 3⟩, ⟨2, 0⟩, ⟨1, -3⟩⟩ = some 5 := by decide
+example : findInvalidIntersection false ⟨0, 0, 2, 6, ⟨10, 0⟩, ⟨5, 5⟩, ⟨10, 10⟩⟩ ⟨0, 0, 5, 6, ⟨0, 10⟩, ⟨5, 5⟩, ⟨0, 0⟩⟩ = some 6 ∧
+    findInvalidIntersection true ⟨0, 0, 2, 6, ⟨10, 0⟩, ⟨5, 5⟩, ⟨10, 10⟩⟩ ⟨0, 0, 5, 6, ⟨0, 10⟩, ⟨5, 5⟩, ⟨0, 0⟩⟩ = none := by decide
 
 /-! ## SPEC: the reference evaluator -/
 
